@@ -141,13 +141,17 @@ def ensure_makefile():
 
 
 def scan_forbidden(paths=None):
-    """grep for Admitted/Axiom/... in the hand-written and generated development."""
+    """grep for Admitted/Axiom/... in the given .v files (relative to coq/), default: all."""
     hits = []
-    for root, _dirs, files in os.walk(COQDIR):
-        for fn in files:
-            if not fn.endswith(".v"):
+    if paths is None:
+        paths = []
+        for root, _dirs, files in os.walk(COQDIR):
+            paths += [os.path.relpath(os.path.join(root, fn), COQDIR) for fn in files if fn.endswith(".v")]
+    for rel in paths:
+        if True:
+            p = os.path.join(COQDIR, rel)
+            if not os.path.exists(p):
                 continue
-            p = os.path.join(root, fn)
             with open(p, encoding="utf-8", errors="replace") as fh:
                 for i, line in enumerate(fh, 1):
                     code = re.sub(r"\(\*.*?\*\)", "", line)
@@ -369,7 +373,6 @@ class Check:
     # ---- coq ------------------------------------------------------------------
     def build_props(self, targets, timeout=900):
         """Build the property theorem files (forced rebuild) and collect Print Assumptions."""
-        hits = scan_forbidden()
         ok, log = coq_make(targets, timeout=timeout, force=targets)
         self.build_log = log
         self.assumptions = parse_assumptions(log)
@@ -379,6 +382,7 @@ class Check:
             for v in dep_cone(t[:-1]):
                 if v not in vfiles:
                     vfiles.append(v)
+        hits = scan_forbidden(vfiles)
         stmts = count_statements(vfiles)
         self.coverage.update({
             "obligations": len(stmts),
